@@ -73,7 +73,7 @@ func genC10(t *rapid.T) FaultCase {
 	case "inline-reader", "ext-reader":
 		faults = []string{"reader-error", "reader-error", "cancel", "enospc", "enospc", "none"}
 	case "inline-create", "ext-create":
-		faults = []string{"cancel", "enospc", "enospc", "none"} // a File has no source reader; abandoning it is Close
+		faults = []string{"cancel", "cancel", "enospc", "enospc", "none"} // a File has no source reader; abandoning it is Close
 	default:
 		faults = []string{"recv-error", "recv-error", "recv-error", "enospc", "none"}
 	}
@@ -82,6 +82,9 @@ func genC10(t *rapid.T) FaultCase {
 	if fc.Fault == "reader-error" {
 		fc.SrcErr = rapid.SampledFrom([]string{"", "", "unexpected-eof", "unexpected-eof", "wrapped-eof", "canceled", "deadline"}).Draw(t, "srcErr")
 		fc.SrcData = rapid.IntRange(0, 3).Draw(t, "srcData") == 0
+	}
+	if fc.Fault == "cancel" {
+		fc.Linger = rapid.SampledFrom([]int{0, 1, 3}).Draw(t, "linger")
 	}
 	if fc.Fault == "recv-error" {
 		nmsg := 1 + (fc.Len+2047)/2048
